@@ -104,6 +104,9 @@ pub enum Ans {
     Ready(usize),
     Pending,
     Eof,
+    /// the read fails with ErrorKind::Interrupted (a transient condition by std::io's convention): the
+    /// stream yields the error and the consumer polls on
+    Interrupted,
 }
 
 struct Shared {
@@ -139,6 +142,7 @@ impl AsyncRead for ScriptReader<'_> {
                 self.sh.eof.store(true, Ordering::SeqCst);
                 Poll::Ready(Ok(()))
             }
+            Ans::Interrupted => Poll::Ready(Err(std::io::Error::new(std::io::ErrorKind::Interrupted, "interrupted"))),
             Ans::Ready(k) => {
                 let c = self.sh.consumed.load(Ordering::SeqCst);
                 let k = k.min(buf.remaining()).min(self.data.len() - c);
@@ -198,6 +202,9 @@ where
         }
         match st.poll_next_unpin(&mut cx) {
             Poll::Ready(Some(Ok((o, c)))) => chunks.push((o, c.data().to_vec())),
+            Poll::Ready(Some(Err(e))) if e.kind() == std::io::ErrorKind::Interrupted => {
+                // transient: reported to the consumer, who simply polls again
+            }
             Poll::Ready(Some(Err(e))) => {
                 error = Some(format!("chunker error {e}"));
                 break;
@@ -274,6 +281,9 @@ pub fn explore_reads<C>(
         }
         let remaining = data.len() - cur.state.consumed;
         let mut answers = vec![Ans::Pending];
+        if remaining > 0 || !cur.state.eof {
+            answers.push(Ans::Interrupted);
+        }
         if remaining > 0 {
             for k in sizes(remaining) {
                 answers.push(Ans::Ready(k));
@@ -363,7 +373,8 @@ pub fn cuts_with_script(c: &Cfg, data: &[u8], script: &[Ans]) -> Result<Vec<usiz
     Ok(out.chunks.iter().map(|(o, b)| *o as usize + b.len()).collect())
 }
 
-/// Cut list of the real chunker with the input delivered `read_size` bytes per read (Pending before every 3rd read).
+/// Cut list of the real chunker with the input delivered `read_size` bytes per read (Pending before every 3rd read,
+/// a transient Interrupted error before every 5th).
 pub fn cuts_with_reads(c: &Cfg, data: &[u8], read_size: usize) -> Result<Vec<usize>, String> {
     let mut script = vec![];
     let mut left = data.len();
@@ -371,6 +382,9 @@ pub fn cuts_with_reads(c: &Cfg, data: &[u8], read_size: usize) -> Result<Vec<usi
     while left > 0 {
         if i % 3 == 2 {
             script.push(Ans::Pending);
+        }
+        if i % 5 == 4 {
+            script.push(Ans::Interrupted);
         }
         let k = read_size.min(left);
         script.push(Ans::Ready(k));
